@@ -23,6 +23,7 @@ type SyncCase struct {
 	Differ int          `json:"differ,omitempty"` // fsutil.DiffType
 	Notify bool         `json:"notify,omitempty"`
 	Unpriv bool         `json:"unpriv,omitempty"` // receiver (and whole transfer) runs as uid 1000
+	FilterUID bool      `json:"filteruid,omitempty"` // source owned by 4242:4242, receiver Filter maps ownership to 0:0
 	MemEOF bool         `json:"memeof,omitempty"` // in-memory source whose readers return the last bytes together with io.EOF
 }
 
@@ -79,12 +80,25 @@ func (d *syncDirs) transfer(c SyncCase, srcTree fsmodel.Tree) *SyncObs {
 		return o
 	}
 	var src fsutil.FS
+	if c.FilterUID {
+		// what is sent belongs to 4242:4242; the destination is compared with ownership mapped back
+		srcTree = srcTree.Clone()
+		for i := range srcTree {
+			srcTree[i].UID, srcTree[i].GID = 4242, 4242
+		}
+		c.Mem = true
+	}
 	if c.Mem {
 		m := memfs.New(srcTree)
 		m.EOFWithData = c.MemEOF
 		src = m
 		o.View = srcTree.Clone()
 		o.View.Sort()
+		if c.FilterUID {
+			for i := range o.View {
+				o.View[i].UID, o.View[i].GID = 0, 0
+			}
+		}
 	} else {
 		if src, err = fsutil.NewFS(d.src); err != nil {
 			o.Err = err.Error()
@@ -96,6 +110,12 @@ func (d *syncDirs) transfer(c SyncCase, srcTree fsmodel.Tree) *SyncObs {
 		}
 	}
 	opt := fsutil.ReceiveOpt{Merge: c.Merge, Differ: fsutil.DiffType(c.Differ)}
+	if c.FilterUID {
+		opt.Filter = func(p string, st *types.Stat) bool {
+			st.Uid, st.Gid = 0, 0
+			return true
+		}
+	}
 	notes := &xfer.Notes{}
 	if c.Notify {
 		opt.NotifyHashed = notes.Handle
